@@ -193,6 +193,60 @@ class MDrain(Monitor):
         self.baseline = {}
     def on_setup(self, w):
         self.baseline = structural_scan(w)
+        self.idle_flagged = set()
+
+    ORPHAN_TIMERS = ("handle_orphaned_responses", "log_and_acknowledge_orphaned_responses", "EventDispatcher.heartbeat")
+
+    def after_step(self, w, label):
+        """Idle point: every execution is terminal and no message is anywhere in flight.  Nothing may be held then
+        (the retention of a late orphaned reply, which is a deliberate short-lived parking place, is exempt)."""
+        arns = self.life.started | set(w.started) | set(self.life.status)
+        if not arns or any(not any(s in TERMINAL for s in self.life.status.get(a, [])) for a in arns):
+            return
+        if w.api_pos < len(w.script):
+            return
+        b = w.broker
+        for qn, q in b.queues.items():
+            if q.messages and not qn.startswith("verif."):
+                return
+        for inst in w.live_instances():
+            if inst.conn.pending_calls or any(ch.pending_returns for ch in inst.conn.channels):
+                return
+        from pika import _core as simcore
+        for inst in w.live_instances():
+            if any(t.deadline <= w.clock.now and not w.is_heartbeat(t) for t in w.timers(inst.conn)):
+                return      # a due timer is work in flight
+        for inst in w.live_instances():
+            for ch in inst.conn.channels:
+                for tag, (qn, m, c) in sorted(ch.unacked.items()):
+                    if qn.startswith("asl_workflow_reply_to"):
+                        continue
+                    if "unacked" not in self.idle_flagged:
+                        self.idle_flagged.add("unacked")
+                        st = None
+                        try:
+                            st = m.meta()[1]["context"]["State"]["Name"]
+                        except Exception:
+                            pass
+                        self.flag(w, "unacked_at_idle", "all executions are terminal and nothing is in flight, but delivery %d from %s (state %r) is unacknowledged" % (tag, qn, st),
+                                  m.meta()[0], None, queue=qn, state=st)
+            for t in w.timers(inst.conn):
+                k = simcore.timer_kind(t.callback)
+                if not any(k.endswith(x) for x in self.ORPHAN_TIMERS) and ("timer", k) not in self.idle_flagged:
+                    self.idle_flagged.add(("timer", k))
+                    self.flag(w, "timer_at_idle", "all executions are terminal and nothing is in flight, but timer %s is still armed" % k, None, None, timer=k.split(".<locals>.")[-1])
+        scan = structural_scan(w)
+        for k, n in scan.items():
+            if k.endswith(".orphaned_responses"):
+                continue
+            if n != self.baseline.get(k, 0) and k not in self.idle_flagged:
+                self.idle_flagged.add(k)
+                self.flag(w, "state_retained_at_idle", "all executions are terminal and nothing is in flight, but %s holds %d entries (baseline %d)" % (k, n, self.baseline.get(k, 0)),
+                          None, None, attr=k.split(".", 1)[1])
+
+    def state(self):
+        return sorted(map(str, self.idle_flagged))
+
     def at_quiescence(self, w):
         arns = self.life.started | set(w.started) | set(self.life.status)
         if any(not any(s in TERMINAL for s in self.life.status.get(a, [])) for a in arns):
@@ -628,21 +682,18 @@ class MJoin(Monitor):
                         sm = w.sc["machines"][sname]["definition"]
                 if sm is None:
                     continue
-                started = {}
+                groups = {}
                 for i, ev in enumerate(h):
+                    if ev.get("type") == "MapStateEntered":
+                        groups.setdefault(ev.get("stateEnteredEventDetails", {}).get("name"), []).append([])
                     if ev.get("type") == "MapIterationStarted":
                         d = ev.get("mapIterationStartedEventDetails", {})
-                        started.setdefault(d.get("name"), []).append(d.get("index"))
-                    if ev.get("type") == "MapStateStarted":
-                        pass
+                        groups.setdefault(d.get("name"), [[]])[-1].append(d.get("index"))
                 if self.once:
-                    lengths = {}
-                    for ev in h:
-                        if ev.get("type") == "MapStateStarted":
-                            pass
-                    for name, idxs in started.items():
-                        if sorted(idxs) != list(range(len(idxs))):
-                            self.flag(w, "iteration_not_once", "Map %s started iterations %r" % (name, idxs), arn, None, state=name)
+                    for name, gs in groups.items():
+                        for idxs in gs:
+                            if sorted(idxs) != list(range(len(idxs))):
+                                self.flag(w, "iteration_not_once", "Map %s started iterations %r in one entry" % (name, idxs), arn, None, state=name)
                 # the state after a top-level fan-out is entered only after every event of its branches
                 for name, st in sm.get("States", {}).items():
                     if not isinstance(st, dict) or st.get("Type") not in ("Parallel", "Map"):
